@@ -116,6 +116,10 @@ def run(ctx):
         ctx.check(good and net_ok and t == want, 'R3', 'address-front-door:' + nm, ps[0] if ps else f,
                   '%s parses with Address::from_str_checked(_, canister network) and maps MalformedAddress / WrongNetwork{expected} one to one' % nm,
                   '%s address handling: parser=%s table=%s' % (nm, good and net_ok, t))
+    # both refuse c > chain length with the same error and payload (shared with C04.R1)
+    from sa.engine import SubCtx
+    from rules import c04
+    c04.run(SubCtx(ctx, {'R1': 'R3'}))
     # ---------------- R4
     if fb:
         k = None
